@@ -205,7 +205,7 @@ lazy_static! {
         r"(?x)
 ^
 (
-    \^?[0-9a-f]{4,40} # commit hash (^ is 'boundary commit' marker)
+    [?*^]{0,3}[0-9a-f]{4,40} # commit hash (^ marks a boundary commit, ? and * lines of ignored revisions)
 )
 (?: [^(]+)?        # optional file name (unused; present if file has been renamed; TODO: inefficient?)
 [\ ]
